@@ -668,8 +668,8 @@ static size_t copy_chars (UCHAR* from, UCHAR* to, size_t count, interactive_t* i
                 {
                 case TELOPT_TTYPE:
                   {
-                    if (ip->sb_buf[1] != TELQUAL_IS)
-                      break;
+                    if (ip->sb_pos < 2 || ip->sb_buf[1] != TELQUAL_IS)
+                      break;	/* too short: sb_buf[2..] is left over from earlier or never written */
                     copy_and_push_string ((char*)ip->sb_buf + 2);
                     apply (APPLY_TERMINAL_TYPE, ip->ob, 1, ORIGIN_DRIVER);
                     break;
@@ -678,6 +678,8 @@ static size_t copy_chars (UCHAR* from, UCHAR* to, size_t count, interactive_t* i
                   {
                     int w, h;
 
+                    if (ip->sb_pos < 5)
+                      break;	/* not a complete window size */
                     w = ((UCHAR) ip->sb_buf[1]) * 256 + ((UCHAR) ip->sb_buf[2]);
                     h = ((UCHAR) ip->sb_buf[3]) * 256 + ((UCHAR) ip->sb_buf[4]);
                     push_number (w);
